@@ -39,7 +39,7 @@ func verifEncrName(sel uint8) (string, int) {
 
 // every advertised algorithm -> transform -> the same algorithm (registry singleton),
 // key sizes as in RFC 3602 (16/24/32 octets)
-func lemma_C11_encr_roundtrip(sel uint8) {
+func lemma_C11_encr_roundtrip(sel uint8, jt uint8, jid uint16, jp bool, jf uint8, jat, jav uint16) {
 	name, keyLen := verifEncrName(sel)
 	a := StrToType(name)
 	verifAssert(a != nil, "C11/encr/advertised-name-resolves")
@@ -54,6 +54,14 @@ func lemma_C11_encr_roundtrip(sel uint8) {
 	verifAssert(errk == nil && tk.TransformType == 1 && tk.TransformID == 12 && tk.AttributePresent && tk.AttributeFormat == 1 &&
 		tk.AttributeType == 14 && int(tk.AttributeValue) == 8*keyLen, "C11/encrK/transform-fields")
 	verifAssert(DecodeTransformChildSA(tk) == k, "C11/encrK/transform-decodes-to-the-same-algorithm")
+	// whatever the caller then does to the transform it was handed, a later conversion
+	// of the same algorithm is unaffected: every conversion returns its own object
+	tr.TransformType, tr.TransformID, tr.AttributePresent, tr.AttributeFormat, tr.AttributeType, tr.AttributeValue = jt, jid, jp, jf, jat, jav
+	tk.TransformType, tk.TransformID, tk.AttributePresent, tk.AttributeFormat, tk.AttributeType, tk.AttributeValue = jt, jid, jp, jf, jat, jav
+	tr2, err2 := ToTransform(a)
+	verifAssert(err2 == nil && tr2.TransformID == 12 && tr2.AttributePresent && tr2.AttributeFormat == 1 && tr2.AttributeType == 14 && int(tr2.AttributeValue) == 8*keyLen && DecodeTransform(tr2) == a, "C11/encr/conversion-unaffected-by-edits-of-earlier-results")
+	tk2, errk2 := ToTransformChildSA(k)
+	verifAssert(errk2 == nil && tk2.TransformID == 12 && tk2.AttributePresent && tk2.AttributeFormat == 1 && tk2.AttributeType == 14 && int(tk2.AttributeValue) == 8*keyLen && DecodeTransformChildSA(tk2) == k, "C11/encrK/conversion-unaffected-by-edits-of-earlier-results")
 }
 
 func lemma_C11_encr_unknown_name(name string) {
